@@ -50,6 +50,34 @@ def _recorder(log):
   return rec
 
 
+def _struct_classes(sim):
+  out = set()
+  def rec(v):
+    if isinstance(v, list):
+      for x in v: rec(x)
+    elif sim._is_bs(v):
+      out.add(type(v))
+      for f in v.__bitstruct_fields__: rec(getattr(v, f))
+  for v in sim.sig_value.values(): rec(v)
+  return out
+
+
+def _struct_ilshift(self, other):
+  """reference semantics of `struct <<= value`, independent of the generated method: every leaf, found by walking the
+  instance itself, is assigned from the corresponding leaf of the right-hand side"""
+  if other.__class__ is not self.__class__:
+    other = self.__class__.from_bits(other.to_bits())
+  def rec(a, b):
+    if isinstance(a, list):
+      for x, y in zip(a, b): rec(x, y)
+    elif hasattr(type(a), '__bitstruct_fields__'):
+      for f in a.__bitstruct_fields__: rec(getattr(a, f), getattr(b, f))
+    else:
+      a <<= b
+  rec(self, other)
+  return self
+
+
 def blkkey(top, f): return repr(top.get_update_block_host_component(f)) + '.' + f.__name__
 
 
@@ -62,6 +90,7 @@ def item_edge(it):
   ff_order = [blkkey(top, f) for f in top.get_all_update_ff()]     # the (address-dependent) iteration order this run saw
   ffs = sorted(top.get_all_update_ff(), key=lambda f: blkkey(top, f))
   cells = sim.cells
+  structs = _struct_classes(sim)
   flagged = {c.name for c in cells if c.dbuf}
   probe = {}
 
@@ -79,8 +108,12 @@ def item_edge(it):
         log = []
         orig = sim.Bits.__ilshift__
         sim.Bits.__ilshift__ = _recorder(log)       # `x <<= v` only records (x, value): oracle independent of _next/_flip
+        saved = {c: c.__ilshift__ for c in structs}
+        for c in structs: c.__ilshift__ = _struct_ilshift     # ... and of the generated per-field struct code
         try: g()
-        finally: sim.Bits.__ilshift__ = orig
+        finally:
+          sim.Bits.__ilshift__ = orig
+          for c, f_ in saved.items(): c.__ilshift__ = f_
         last = {}
         for o, val in log: last[id(o)] = val
         return [(last.get(id(c.obj)), c.obj._uint is S0[i][0]) for i, c in enumerate(cells)]
@@ -114,6 +147,7 @@ def item_edge(it):
       for cond, val, gname in (F[c.name] or []):
         exp = z3.If(cond, ubv(val, c.nbits), exp)
       goals.append(ubv(post[c.name], c.nbits) == exp)
+      goals.append(core.in_range(post[c.name], 0, (1 << c.nbits) - 1))      # the committed payload is a valid n-bit value
     if not sane: goals.append(z3.BoolVal(False))
     res['obligations'] += 1
     stale = [x for k, x in probe.items() if k not in flagged and not (F[k] or []) and not k.startswith('s.') is False and False]
